@@ -793,6 +793,32 @@ class Interp:
             return None
         if isinstance(st, ast.Pass):
             return None
+        # a local list of text pieces, joined with '' at the end: `pieces += [a, b]` adds the pieces at the end and
+        # `pieces[:0] = [a, b]` in front; the list is represented by the concatenation of its items
+        piece_edit = None
+        if isinstance(st, ast.AugAssign) and isinstance(st.op, ast.Add) and isinstance(st.target, ast.Name) and isinstance(st.value, ast.List):
+            piece_edit = (st.target.id, st.value, 'end')
+        if isinstance(st, ast.Assign) and len(st.targets) == 1 and isinstance(st.targets[0], ast.Subscript) and isinstance(st.targets[0].value, ast.Name) \
+                and isinstance(st.targets[0].slice, ast.Slice) and st.targets[0].slice.lower is None and st.targets[0].slice.step is None \
+                and isinstance(st.targets[0].slice.upper, ast.Constant) and st.targets[0].slice.upper.value == 0 and isinstance(st.value, ast.List):
+            piece_edit = (st.targets[0].value.id, st.value, 'front')
+        if piece_edit is not None:
+            name, lit, where_ = piece_edit
+            cur = env.get(name)
+            names = self.__dict__.setdefault('piece_names', set())
+            if isinstance(cur, ListOf) and not hasattr(cur, 'items'):
+                if getattr(cur, 'exact_one', False):
+                    cur = self.as_str(self.item_of(cur), st)
+                elif cur.item is None:
+                    cur = Lit('')
+                else:
+                    cur = None
+                if cur is not None:
+                    names.add(name)
+            if isinstance(cur, T) and name in names:
+                new = [self.as_str(self.ev(x, env), st) for x in lit.elts]
+                env[name] = cat(*(new + [cur])) if where_ == 'front' else cat(*([cur] + new))
+                return None
         if isinstance(st, ast.Assign) and len(st.targets) == 1:
             tgt = st.targets[0]
             if isinstance(tgt, ast.Name):
